@@ -155,4 +155,30 @@ theorem merge_needs_entry_presence :
     eqMsg S 0 b (mergeMsg S 0 Msg.empty b) = false := by
   decide +kernel
 
+/-! ### what is NOT true: "Unmarshal(x ‖ y) = Merge(Unmarshal x, Unmarshal y)" for arbitrary `y`
+
+The property text of C07 also claims this, and "UnmarshalOptions{Merge:true} into m equals
+Merge(m, Unmarshal(b))".  Both fail — in the model and in the Go implementation (checked with
+TestAllTypes: x = oneof_nested_message{a:1}, y = oneof_uint32:5, oneof_nested_message{corecursive:{}};
+Unmarshal(x‖y) = {corecursive:{}} but Merge(Unmarshal x, Unmarshal y) = {a:1 corecursive:{}}) — when
+`y` sets another member of a oneof and then comes back to a message member: the decoder starts the
+second occurrence from a fresh submessage, `Unmarshal(y)` alone forgets the switch.  The true
+statements are `decode_append` (sequential decoding) and `merge_eq_decode_encode` (for `y` the
+encoding of a well-formed message, which holds at most one member per oneof). -/
+theorem concat_ne_merge_of_decodes :
+    let S : Schema := ⟨[⟨[{ num := 1, kind := .message, card := .optional, oneof := some 0, sub := 1 },
+                         { num := 2, kind := .int32, card := .optional, oneof := some 0 }]⟩,
+                        ⟨[{ num := 1, kind := .int32, card := .optional },
+                          { num := 2, kind := .int32, card := .optional }]⟩]⟩
+    let x : List Byte := [0x0A#8, 0x02#8, 0x08#8, 0x01#8]                        -- 1:{1:1}
+    let y : List Byte := [0x10#8, 0x05#8, 0x0A#8, 0x02#8, 0x10#8, 0x02#8]        -- 2:5, 1:{2:2}
+    (match unmarshal S 0 (x ++ y), unmarshal S 0 x, unmarshal S 0 y with
+     | .ok c, .ok a, .ok b =>
+       eqMsg S 0 c (mergeMsg S 0 a b) ||
+       (match unmarshalInto S 0 a y 10000 false with
+        | .ok r => eqMsg S 0 r (mergeMsg S 0 a b)
+        | .error _ => true)
+     | _, _, _ => true) = false := by
+  decide +kernel
+
 end C07
